@@ -313,7 +313,45 @@ def check(pid, tier):
     ev.cov["other_property_rejections"] = other
     if pid == "C04":
         connect_cycles(pid, tier, ev, rng, violations, machinery)
+    if pid == "C03":
+        multiport_runs(pid, tier, ev, rng, violations, machinery)
     return finish(pid, ev, out_lines, violations, machinery)
+
+
+def multiport_runs(pid, tier, ev, rng, violations, machinery):
+    """C03 for compositions whose connect phase needs several rounds: components with several inputs and
+    outputs, metadata derived from the other slot of a port, data published only after the initial pulls
+    (shapes of Connect2.tla, families lanes and feedback).  Where the least fixpoint of the exchange
+    dependencies is complete the composition is valid: run() must come back, every life cycle is walked once,
+    times increase, the end time is reached, nothing is updated afterwards, every pull is served
+    (Run2_Trace.tla)."""
+    from .fn_engine import run_cases
+    cases = []
+    for fam, cap in (("lanes", 1200 if tier == "quick" else None), ("feedback", 2400 if tier == "quick" else None)):
+        got = tlc.emit("Connect2Emit", {"FAMILY": fam})
+        if cap and len(got) > cap:
+            got = rng.sample(got, cap)
+            ev.cov["exhaustive"] = False
+        cases += [dict(c, E=rng.choice([2, 3])) for c in got]
+    traces = run_cases("connect2_run", "run_full", cases)
+    herr = [t for t in traces if "harness_error" in t]
+    if herr:
+        machinery.append(f"{len(herr)} harness errors (multi-port runs), first: {herr[0]['harness_error']}")
+        traces = [t for t in traces if "harness_error" not in t]
+    acc, tot, bad, gen, _ = tlc.validate("Run2_Trace", traces)
+    ev.add_traces("Run2_Trace/lanes+feedback", acc, tot, gen)
+    done = [t for t in traces if t["end"]["out"] == "ok"]
+    ev.cov["multiport_runs"] = {"completed": len(done), "circular_at_connect": len(traces) - len(done),
+                                "updates": sum(len(t["upd"]) for t in done)}
+    ev.cov["distinct_nontrivial"] += len(done)
+    if not done or len(done) == len(traces):
+        machinery.append("vacuous: multi-port shapes must both run and stall")
+    for k, verdict in sorted(bad.items()):
+        if verdict.split("@")[0] == "cycle-not-reported":
+            continue                                  # C04 / C06
+        t = traces[k]
+        path = save_replay(pid, {"kind": "run2-trace", "verdict": verdict, "trace": t}) if len(violations) < 10 else "(not saved)"
+        violations.append((pid, f"multi-port composition: {verdict} end={t['end']} fam={t['cfg'].get('fam')} order={t['cfg']['order']}", path))
 
 
 def connect_cycles(pid, tier, ev, rng, violations, machinery):
@@ -487,6 +525,15 @@ def replay(pid, path):
             print(f"VIOLATION property={pid} replay={path}  # order-dependent outcome")
             return 1
         print("replayed pair of orders agrees")
+        return 0
+    if rp.get("kind") == "run2-trace":
+        from .fn_engine import _run
+        t = _run(("connect2_run", "run_full", rp["trace"]["cfg"]))
+        _, _, bad, _, _ = tlc.validate("Run2_Trace", [t])
+        if bad:
+            print(f"VIOLATION property={pid} replay={path}  # {bad[0]}")
+            return 1
+        print("replayed multi-port run accepted")
         return 0
     if rp.get("kind") == "connect-cycle":
         from .fn_engine import _run
